@@ -168,6 +168,8 @@ func (b *binding) emitGetP() {
 func (b *binding) emitSet() {
 	if b.isConst {
 		if b.isStrict || b.scope.c.scope.strict {
+			// an uninitialised binding throws a ReferenceError first
+			b.emitGetP()
 			b.scope.c.emit(throwAssignToConst)
 		}
 		return
@@ -183,6 +185,8 @@ func (b *binding) emitSet() {
 func (b *binding) emitSetP() {
 	if b.isConst {
 		if b.isStrict || b.scope.c.scope.strict {
+			// an uninitialised binding throws a ReferenceError first
+			b.emitGetP()
 			b.scope.c.emit(throwAssignToConst)
 		}
 		return
